@@ -955,6 +955,11 @@ def check_C16(ctx):
             ctx.oracle_fail('eval-side-switch-not-negated', fen, {'value': val, 'other_side': v3})
         # colour mirror
         v4 = ctx.corr('eval ' + fmt_dump(mirror_dump(g)))
+        # the mirror of theorem T16.3 (`Lemmas/EvalMirror.mirror`) is the mirror used here
+        mm = ctx.model.ask('oracle mirror ' + fmt_dump(g))
+        ctx.count('theorem-mirror-compared')
+        if not mm or parse_dump(mm[0]) != mirror_dump(g):
+            ctx.oracle_fail('theorem-mirror-differs-from-harness-mirror', 'oracle mirror ' + fmt_dump(g), {'model': mm, 'harness': fmt_dump(mirror_dump(g))})
         if v4 != v:
             ctx.oracle_fail('eval-not-colour-symmetric', {'fen': fen, 'mirror_dump': fmt_dump(mirror_dump(g))}, {'value': val, 'mirror': v4})
     # positions reached by play must evaluate like the same position set up from its FEN (placement and mover only)
